@@ -370,6 +370,182 @@ theorem cw20_listings_complete {m : InstMsg} {s0 : State} (h : instantiate m = .
     owner_allowances_complete hi.allow a hv limit hl (Nat.le_refl _),
     spender_allowances_complete hi.allowSp a hv limit hl (Nat.le_refl _)⟩
 
+/-! ## Completeness from every cursor (generic, and the three cw20 listings)
+
+The `*_complete` theorems above start the client loop without cursor.  The property also quantifies over
+"every cursor taken from a previous page".  The theorems below start the loop at an **arbitrary** cursor `c`
+(a key taken from an earlier page, a key that has meanwhile been removed, or any other string/number): the loop
+returns exactly the current items whose key is strictly beyond `c`, each once, in key order.  Together with
+`listing_split_at_cursor` (the items up to `c` followed by the items beyond `c` are the whole listing) this
+is the statement for every cursor a client can hold. -/
+
+/-- **Completeness from any cursor (generic, `fetchAll`)**: on a strictly sorted listing, for every limit
+other than 0 and every cursor `c`, the client loop started at `c` returns exactly the items with key above
+`c`.  Subsumes `paginate_complete_from` (there `c` is the last key of a received prefix). -/
+theorem paginate_complete_after {lt : κ → κ → Bool} (ht : StrictTotal lt) {xs : List (κ × ν)} (h : Sorted lt xs)
+    {limit : Option Nat} (hl : limit ≠ some 0) (c : κ) {fuel : Nat} (hf : xs.length + 1 ≤ fuel) :
+    fetchAll lt xs limit (some c) fuel = xs.filter (fun x => lt c x.1) := by
+  apply fetchAll_after ht h (effLimit_pos hl) c
+  have := List.length_filter_le (fun x : κ × ν => lt c x.1) xs
+  omega
+
+/-- What the client already has (keys up to the cursor) followed by what the loop from the cursor returns
+(keys beyond it) is the complete listing: nothing is skipped and nothing repeated at the seam. -/
+theorem listing_split_at_cursor {lt : κ → κ → Bool} (ht : StrictTotal lt) {xs : List (κ × ν)} (h : Sorted lt xs)
+    (c : κ) : xs.filter (fun x => !lt c x.1) ++ xs.filter (fun x => lt c x.1) = xs :=
+  filter_le_append_filter_gt ht c h
+
+/-- **Generic instantiation lemma, any cursor**: if a query, as a function `q` of the cursor, is
+`page lt (sortedEntries lt m) · limit` up to a projection `f`, the client loop started at any cursor `c`
+returns exactly the entries of the map with key above `c`, ascending, each once. -/
+theorem listing_complete_after [DecidableEq κ] {α : Type} {lt : κ → κ → Bool} (ht : StrictTotal lt)
+    {m : AMap κ ν} (hm : AMap.NodupKeys m) {limit : Option Nat} (hl : limit ≠ some 0)
+    {q : Option κ → List α} {key : α → κ} {f : κ × ν → α}
+    (hq : ∀ c, q c = (page lt (sortedEntries lt m) c limit).map f) (hk : ∀ x, key (f x) = x.1) (c : κ)
+    {fuel : Nat} (hf : m.length + 1 ≤ fuel) :
+    fetchLoop q key (some c) fuel = ((sortedEntries lt m).filter (fun x => lt c x.1)).map f :=
+  fetchLoop_sortedEntries_after ht hm hl hq hk c hf
+
+/-- Any cursor, descending listings (`start_before = c`): exactly the entries with key below `c`, descending. -/
+theorem listing_complete_desc_after [DecidableEq κ] {α : Type} {lt : κ → κ → Bool} (ht : StrictTotal lt)
+    {m : AMap κ ν} (hm : AMap.NodupKeys m) {limit : Option Nat} (hl : limit ≠ some 0)
+    {q : Option κ → List α} {key : α → κ} {f : κ × ν → α}
+    (hq : ∀ c, q c = (pageDesc lt (sortedEntriesDesc lt m) c limit).map f) (hk : ∀ x, key (f x) = x.1) (c : κ)
+    {fuel : Nat} (hf : m.length + 1 ≤ fuel) :
+    fetchLoop q key (some c) fuel = (((sortedEntries lt m).reverse).filter (fun x => lt x.1 c)).map f := by
+  rw [fetchLoop_sortedEntriesDesc_after ht hm hl hq hk c hf, sortedEntriesDesc_eq_reverse hm ht]
+
+/-- Any cursor, filtered listings: exactly the entries satisfying `p` with key above `c`. -/
+theorem listing_complete_filtered_after [DecidableEq κ] {α : Type} {lt : κ → κ → Bool} (ht : StrictTotal lt)
+    {m : AMap κ ν} (hm : AMap.NodupKeys m) (p : κ × ν → Bool) {limit : Option Nat} (hl : limit ≠ some 0)
+    {q : Option κ → List α} {key : α → κ} {f : κ × ν → α}
+    (hq : ∀ c, q c = (pageFiltered lt p (sortedEntries lt m) c limit).map f) (hk : ∀ x, key (f x) = x.1) (c : κ)
+    {fuel : Nat} (hf : m.length + 1 ≤ fuel) :
+    fetchLoop q key (some c) fuel = (((sortedEntries lt m).filter p).filter (fun x => lt c x.1)).map f :=
+  fetchLoop_sortedEntries_filtered_after ht hm p hl hq hk c hf
+
+/-- `listing_complete_after` for a query that returns the entries themselves. -/
+theorem listing_complete_after_id [DecidableEq κ] {lt : κ → κ → Bool} (ht : StrictTotal lt)
+    {m : AMap κ ν} (hm : AMap.NodupKeys m) {limit : Option Nat} (hl : limit ≠ some 0)
+    {q : Option κ → List (κ × ν)} (hq : ∀ c, q c = page lt (sortedEntries lt m) c limit) (c : κ)
+    {fuel : Nat} (hf : m.length + 1 ≤ fuel) :
+    fetchLoop q (·.1) (some c) fuel = (sortedEntries lt m).filter (fun x => lt c x.1) :=
+  (listing_complete_after ht hm hl (f := id) (fun c => by rw [hq c, List.map_id]) (fun _ => rfl) c hf).trans
+    (List.map_id _)
+
+/-- `listing_complete_filtered_after` for a query that returns the entries themselves. -/
+theorem listing_complete_filtered_after_id [DecidableEq κ] {lt : κ → κ → Bool} (ht : StrictTotal lt)
+    {m : AMap κ ν} (hm : AMap.NodupKeys m) (p : κ × ν → Bool) {limit : Option Nat} (hl : limit ≠ some 0)
+    {q : Option κ → List (κ × ν)} (hq : ∀ c, q c = pageFiltered lt p (sortedEntries lt m) c limit) (c : κ)
+    {fuel : Nat} (hf : m.length + 1 ≤ fuel) :
+    fetchLoop q (·.1) (some c) fuel = ((sortedEntries lt m).filter p).filter (fun x => lt c x.1) :=
+  (listing_complete_filtered_after ht hm p hl (f := id) (fun c => by rw [hq c, List.map_id]) (fun _ => rfl) c hf).trans
+    (List.map_id _)
+
+/-- `AllAccounts` from any `start_after = c`: exactly the addresses above `c`, ascending, each once. -/
+theorem all_accounts_complete_after {s : State} (hs : AMap.NodupKeys s.balances) (limit : Option Nat)
+    (hl : limit ≠ some 0) (c : String) {fuel : Nat} (hf : s.balances.length + 1 ≤ fuel) :
+    fetchLoop (fun c => queryAllAccounts s c limit) id (some c) fuel
+      = ((sortedEntries strLt s.balances).filter (fun x => strLt c x.1)).map (·.1) :=
+  listing_complete_after strictTotal_strLt hs hl (f := (·.1)) (key := id) (fun _ => rfl) (fun _ => rfl) c hf
+
+/-- `AllAllowances { owner }` from any `start_after = c`: exactly the owner's allowances to spenders above `c`. -/
+theorem owner_allowances_complete_after {s : State} (hs : AMap.NodupKeys s.allow) (owner : AddrArg)
+    (hv : owner.valid = true) (limit : Option Nat) (hl : limit ≠ some 0) (c : String) {fuel : Nat}
+    (hf : (ownerPrefix s owner.text).length + 1 ≤ fuel) :
+    fetchLoop (fun c => okItems (queryOwnerAllowances s owner c limit)) (·.1) (some c) fuel
+      = (sortedEntries strLt (ownerPrefix s owner.text)).filter (fun x => strLt c x.1) :=
+  listing_complete_after_id strictTotal_strLt (ownerPrefix_nodup hs owner.text) hl
+    (fun c => by simp [queryOwnerAllowances_eq, hv, okItems]) c hf
+
+/-- `AllSpenderAllowances { spender }` from any `start_after = c`. -/
+theorem spender_allowances_complete_after {s : State} (hs : AMap.NodupKeys s.allowSp) (spender : AddrArg)
+    (hv : spender.valid = true) (limit : Option Nat) (hl : limit ≠ some 0) (c : String) {fuel : Nat}
+    (hf : (spenderPrefix s spender.text).length + 1 ≤ fuel) :
+    fetchLoop (fun c => okItems (querySpenderAllowances s spender c limit)) (·.1) (some c) fuel
+      = (sortedEntries strLt (spenderPrefix s spender.text)).filter (fun x => strLt c x.1) :=
+  listing_complete_after_id strictTotal_strLt (spenderPrefix_nodup hs spender.text) hl
+    (fun c => by simp [querySpenderAllowances_eq, hv, okItems]) c hf
+
+/-- The spender listing shows exactly the `ALLOWANCES_SPENDER` entries of that spender (mirror of
+`owner_allowances_exact`). -/
+theorem spender_allowances_exact {s : State} (hs : AMap.NodupKeys s.allowSp) (owner spender : Addr) (a : Allowance) :
+    (owner, a) ∈ sortedEntries strLt (spenderPrefix s spender) ↔ s.allowSp.get? (spender, owner) = some a := by
+  rw [mem_sortedEntries, AMap.get?_eq_some_iff hs]
+  simp only [spenderPrefix, List.mem_map, List.mem_filter, decide_eq_true_eq]
+  constructor
+  · rintro ⟨⟨⟨sp, o⟩, v⟩, ⟨hm, ho⟩, he⟩
+    simp only [Prod.mk.injEq] at he ho
+    obtain ⟨rfl, rfl⟩ := he
+    subst ho
+    exact hm
+  · intro hm
+    exact ⟨((spender, owner), a), ⟨hm, rfl⟩, rfl⟩
+
+/-- **All three cw20 listings, every cursor, every reachable state**: any accepted instantiation, any history
+of execute messages, any owner/spender, any limit other than 0 and any `start_after` string `c` (taken from
+an earlier page or not): the loop returns exactly the current items beyond `c`. -/
+theorem cw20_listings_complete_after {m : InstMsg} {s0 : State} (h : instantiate m = .ok s0)
+    (ops : List (Block × Addr × Msg)) (a : AddrArg) (hv : a.valid = true) (limit : Option Nat)
+    (hl : limit ≠ some 0) (c : String) :
+    let s := run s0 ops
+    fetchLoop (fun c => queryAllAccounts s c limit) id (some c) (s.balances.length + 1)
+        = ((sortedEntries strLt s.balances).filter (fun x => strLt c x.1)).map (·.1) ∧
+    fetchLoop (fun c => okItems (queryOwnerAllowances s a c limit)) (·.1) (some c) ((ownerPrefix s a.text).length + 1)
+        = (sortedEntries strLt (ownerPrefix s a.text)).filter (fun x => strLt c x.1) ∧
+    fetchLoop (fun c => okItems (querySpenderAllowances s a c limit)) (·.1) (some c) ((spenderPrefix s a.text).length + 1)
+        = (sortedEntries strLt (spenderPrefix s a.text)).filter (fun x => strLt c x.1) := by
+  intro s
+  have hi := reach_nodup h ops
+  exact ⟨all_accounts_complete_after hi.balances limit hl c (Nat.le_refl _),
+    owner_allowances_complete_after hi.allow a hv limit hl c (Nat.le_refl _),
+    spender_allowances_complete_after hi.allowSp a hv limit hl c (Nat.le_refl _)⟩
+
+/-- A page shorter than the effective limit is the last one: the request that continues from its last key
+returns the empty page (the termination test real clients use).  For a sorted listing. -/
+theorem short_page_is_last {lt : κ → κ → Bool} (ht : StrictTotal lt) {xs : List (κ × ν)} (h : Sorted lt xs)
+    (c : Option κ) (limit : Option Nat) {last : κ × ν}
+    (hlast : (page lt xs c limit).getLast? = some last)
+    (hshort : (page lt xs c limit).length < effLimit limit) :
+    page lt xs (some last.1) limit = [] := by
+  obtain ⟨pre, hpre⟩ := afterCursor_suffix ht h c
+  have hlen := page_length_eq lt xs c limit
+  have hall : page lt xs c limit = afterCursor lt xs c := by
+    unfold page; apply List.take_of_length_le; omega
+  have hx : xs = (pre ++ afterCursor lt xs c) ++ [] := by rw [List.append_nil, hpre]
+  have hc : cursorOf (pre ++ afterCursor lt xs c) = some last.1 :=
+    cursorOf_append_of_getLast? (by rw [← hall]; exact hlast)
+  have := page_next ht (pre := pre ++ afterCursor lt xs c) (suf := []) (by rw [← hx]; exact h) limit
+  rw [← hx, hc] at this
+  simpa using this
+
+/-- **How many requests**: for a listing of `n` items and effective page size `e = min (limit or 10) 30`, the
+client loop is complete after `⌊n / e⌋ + 2` requests (the full pages, possibly one short page, and the empty page
+that ends it) — e.g. 3 requests for 35 items at the maximum page size.  (`length + 1` of the other theorems is the
+bound for page size 1.) -/
+theorem paginate_complete_pages {lt : κ → κ → Bool} (ht : StrictTotal lt) {xs : List (κ × ν)} (h : Sorted lt xs)
+    {limit : Option Nat} (hl : limit ≠ some 0) :
+    fetchAll lt xs limit none (xs.length / effLimit limit + 2) = xs :=
+  fetchAll_complete_pages ht h (effLimit_pos hl)
+
+/-- The same for a model query (`page` of `sortedEntries` up to a projection). -/
+theorem listing_complete_pages [DecidableEq κ] {α : Type} {lt : κ → κ → Bool} (ht : StrictTotal lt)
+    {m : AMap κ ν} (hm : AMap.NodupKeys m) {limit : Option Nat} (hl : limit ≠ some 0)
+    {q : Option κ → List α} {key : α → κ} {f : κ × ν → α}
+    (hq : ∀ c, q c = (page lt (sortedEntries lt m) c limit).map f) (hk : ∀ x, key (f x) = x.1) :
+    fetchLoop q key none (m.length / effLimit limit + 2) = (sortedEntries lt m).map f := by
+  rw [fetchLoop_eq_fetchAll hq hk]
+  have := fetchAll_complete_pages ht (sortedEntries_sorted hm ht) (effLimit_pos hl) (limit := limit)
+  rw [sortedEntries_length] at this
+  rw [this]
+
+/-- `AllAccounts` with the tight request bound. -/
+theorem all_accounts_complete_pages {s : State} (hs : AMap.NodupKeys s.balances) (limit : Option Nat)
+    (hl : limit ≠ some 0) :
+    fetchLoop (fun c => queryAllAccounts s c limit) id none (s.balances.length / effLimit limit + 2)
+      = (sortedEntries strLt s.balances).map (·.1) :=
+  listing_complete_pages strictTotal_strLt hs hl (f := (·.1)) (key := id) (fun _ => rfl) (fun _ => rfl)
+
 /-! ## Non-vacuity: concrete listings with more than 30 items -/
 
 /-- 35 items with keys 0, 2, …, 68. -/
@@ -409,5 +585,45 @@ example : queryAllAccounts sEx none none = ["a", "b", "c", "d", "e", "f", "g", "
     (Sorted.eq_of_perm strictTotal_strLt (sortedEntries_sorted sEx_nodup.balances strictTotal_strLt)
       (by unfold Sorted; decide) ((sortedEntries_perm _ _).trans (by decide)))
   simp only [queryAllAccounts, h]; decide
+
+
+/-! ### Non-vacuity of the any-cursor theorems -/
+
+example : fetchAll natLt xs35 (some 7) (some 41) 36 = xs35.filter (fun x => natLt 41 x.1) := by decide  -- cursor not a key
+example : fetchAll natLt xs35 (some 7) (some 40) 36 = xs35.drop 21 := by decide                         -- cursor is a key
+example : fetchAll natLt xs35 none (some 100) 36 = [] := by decide                                      -- beyond the end
+example : xs35.filter (fun x => !natLt 41 x.1) ++ xs35.filter (fun x => natLt 41 x.1) = xs35 := by decide
+example : fetchAll natLt xs35 (some 7) (some 41) 36 = xs35.filter (fun x => natLt 41 x.1) :=
+  paginate_complete_after strictTotal_natLt (by unfold Sorted; decide) (by decide) 41 (by decide)
+/-- `short_page_is_last`: the page after key 58 with limit 10 has 5 < 10 items; continuing from its last key 68
+returns nothing. -/
+example : (page natLt xs35 (some 58) none).length = 5 ∧ page natLt xs35 (some 68) none = [] := by decide
+/-- `all_accounts_complete_after` on the 12-account state: from the non-existing cursor "ea" with pages of 4 the
+loop returns the seven addresses above it. -/
+example : fetchLoop (fun c => queryAllAccounts sEx c (some 4)) id (some "ea") 13 = ["f", "g", "k", "m", "x", "y", "z"] := by
+  have h : sortedEntries strLt sEx.balances = [("a", 3), ("b", 5), ("c", 2), ("d", 7), ("e", 9), ("f", 11),
+      ("g", 12), ("k", 4), ("m", 1), ("x", 10), ("y", 8), ("z", 6)] :=
+    (Sorted.eq_of_perm strictTotal_strLt (sortedEntries_sorted sEx_nodup.balances strictTotal_strLt)
+      (by unfold Sorted; decide) ((sortedEntries_perm _ _).trans (by decide)))
+  rw [all_accounts_complete_after sEx_nodup.balances (some 4) (by decide) "ea" (by decide), h]
+  decide
+/-- `owner_allowances_complete_after` / `spender_allowances_exact` on the same state. -/
+example : fetchLoop (fun c => okItems (queryOwnerAllowances sEx ⟨true, "a"⟩ c (some 1))) (·.1) (some "s1") 3
+    = [("s2", ⟨5, .never⟩)] := by
+  have h : sortedEntries strLt (ownerPrefix sEx "a") = [("s1", ⟨7, .never⟩), ("s2", ⟨5, .never⟩)] :=
+    (Sorted.eq_of_perm strictTotal_strLt
+      (sortedEntries_sorted (ownerPrefix_nodup sEx_nodup.allow "a") strictTotal_strLt)
+      (by unfold Sorted; decide) ((sortedEntries_perm _ _).trans (by decide)))
+  rw [owner_allowances_complete_after sEx_nodup.allow ⟨true, "a"⟩ rfl (some 1) (by decide) "s1" (by decide), h]
+  decide
+example : ("b", ⟨6, .never⟩) ∈ sortedEntries strLt (spenderPrefix sEx "s1") :=
+  (spender_allowances_exact sEx_nodup.allowSp "b" "s1" ⟨6, .never⟩).mpr (by decide)
+
+
+/-- `paginate_complete_pages`: 35 items, page size 30: 35 / 30 + 2 = 3 requests; page size 10: 5 requests. -/
+example : fetchAll natLt xs35 (some 31) none (xs35.length / effLimit (some 31) + 2) = xs35 :=
+  paginate_complete_pages strictTotal_natLt (by unfold Sorted; decide) (by decide)
+example : xs35.length / effLimit (some 31) + 2 = 3 ∧ xs35.length / effLimit none + 2 = 5 := by decide
+example : fetchAll natLt xs35 (some 31) none 1 ≠ xs35 := by decide   -- one request is not enough (two already return all 35 items; the third sees the empty page)
 
 end CwPlus.Props.C20
